@@ -247,29 +247,28 @@ def run_case(case, ctx):
             return
         ctx.count("rejected")
         ctx.note("rejection_classes", v.exc_class)
-        vi = intrinsic_version(r, vp)
         allowed_versions = table.get("major_version", ["any", None])[1]
         rej_key = getattr(v.exc, "key", None)
-        if v.exc_class == "ValueNotAllowedInLevel" and rej_key == "major_version" and allowed_versions:
+        if v.exc_class == "ValueNotAllowedInLevel" and rej_key == "major_version" and allowed_versions and sv is not None:
             want = allowed_versions[0]
-            if want < vi:
+            # Execution-based classification: substitute every other header the encoder itself can generate.
+            if witness_alternative_header(cf, seq):
+                # a conformant choice existed: the header search ignores what its choices imply for major_version
+                # (a preset index implying version 3 under a table admitting less, or a compact version-1 header
+                # under a table demanding 3 although a header with version-3 presets is available) -- DESIGN D9
+                ctx.violation("encoder-header-choice-ignores-version-implication",
+                              "table admits major_version %d, the encoder's chosen header gives a stream of version %s, another of its own headers validates"
+                              % (want, sv))
+            elif sv > want:
+                # every header the encoder can make needs more than the table admits: the caller's configuration
+                # (profile, fragments, asymmetric transform ...) conflicts with the table
                 ctx.count("caller_conflict_version")
-                return
-            if sv is not None and sv > vi and want == vi or (sv is not None and sv > want >= vi):
-                # the stream carries a higher version than the configuration needs: the encoder's own
-                # header choice (a preset index that implies version 3) raised it
-                if witness_alternative_header(cf, seq):
-                    ctx.violation("encoder-choice-raises-version",
-                                  "table admits major_version %d, configuration needs %d, but the encoder chose a header needing %s; another of its own headers validates"
-                                  % (want, vi, sv))
-                else:
-                    ctx.violation("encoder-version-no-witness",
-                                  "table admits major_version %d, configuration needs %d, stream has %s and no alternative header validates" % (want, vi, sv))
-                return
-            if want > (sv if sv is not None else vi):
+            else:
+                # the table demands more than any header makes the stream need; the minimal-version rule forbids
+                # simply writing the demanded number -- DESIGN D8
                 ctx.violation("level-requires-nonminimal-version",
-                              "table admits only major_version %d but the stream's features need only %s" % (want, sv))
-                return
+                              "table admits only major_version %d but no header makes the stream need more than %s" % (want, sv))
+            return
         # anything else: the encoder returned a sequence the validator rejects under the same table
         expl = _explain(v.exc)
         if v.exc_class == "ValueNotAllowedInLevel":
